@@ -42,7 +42,7 @@ def _behaviour(t, pp):
 
 def w_cross(ctx, rng, i):
     d = 2 + i % 2
-    kinds = tx.kinds(d) + tx.EXTRA_HOMOG + (tx.DEGENERATE_2D if d == 2 else []) + ["NonSquareHomogeneous", "ChainWithIdentityMember", "ChainAfterChain"]
+    kinds = tx.kinds(d) + tx.EXTRA_HOMOG + (tx.DEGENERATE_2D if d == 2 else []) + ["NonSquareHomogeneous", "ChainWithIdentityMember", "ChainAfterChain", "ScaleFromFactors"]
     kind = kinds[(i // 2) % len(kinds)]
     cls = gen.SHAPE_CLASSES[(i // (2 * len(kinds))) % 8]
     nlm = int(rng.integers(0, 4))
@@ -67,6 +67,21 @@ def w_cross(ctx, rng, i):
                 first.compose_before_inplace(second); t = first
         recipe = None
         sequential = (lambda p: s0.apply(f0.apply(p)), ["compose_after", "compose_before", "compose_after_inplace", "compose_before_inplace"][how])
+    elif kind == "ScaleFromFactors":
+        # the documented factory, from the factor values alone (equal factors, different ones, the first and the last equal):
+        # whatever class it picks, every axis is scaled by its own factor
+        import menpo.transform as _mt1
+        f_ = rng.uniform(0.4, 2.5, d) * rng.choice([-1.0, 1.0, 1.0], d)
+        pat_ = int(rng.integers(0, 4))
+        if pat_ == 0:
+            f_[:] = f_[0]
+        elif pat_ == 1:
+            f_[-1] = f_[0]
+        elif pat_ == 2:
+            f_[1] = f_[0]
+        t = _mt1.Scale(f_.copy() if rng.random() < 0.5 else [float(v) for v in f_])
+        recipe = None
+        sequential = (lambda p, f_=f_.copy(): np.asarray(p, dtype=float) * f_, "Scale_factory:pattern%d" % pat_)
     else:
         t, recipe = tx.make(rng, kind, d)
     equal_sizes = bool(rng.random() < 0.4)
@@ -132,7 +147,7 @@ def w_cross(ctx, rng, i):
     if dense_shape and not has_empty:
         bs = [None, 1000, 4097][rng.integers(0, 3)]          # (thousands of one-point batches would only burn time)
     history = int(rng.integers(0, 4))
-    if history == 3 and kind != "ChainAfterChain":
+    if history == 3 and kind not in ("ChainAfterChain", "ScaleFromFactors"):
         # the transform's parameters were replaced after it was built (parameter vector, new target): only the new ones count
         if tx.is_alignment(t) and isinstance(t, _mt.Homogeneous) and rng.random() < 0.5:
             # an alignment handed a new target is the alignment its source, the new target and its options define
@@ -240,7 +255,8 @@ def w_cross(ctx, rng, i):
         e = tx.maxdiff(r.points, sequential[0](np.asarray(s.points, dtype=float)))
         ctx.bump("chains_of_chains_judged_against_sequential_application")
         if not e <= 1e-8 * tx.BOX:
-            ctx.fail("chain_composed_with_a_chain_moves_the_shape_by_another_map_than_one_after_the_other", cls=cls, mech=sequential[1], err=e)
+            ctx.fail("chain_composed_with_a_chain_moves_the_shape_by_another_map_than_one_after_the_other" if not sequential[1].startswith("Scale_factory")
+                     else "shape_moved_by_another_map_than_the_factors_given_define", cls=cls, mech=sequential[1], err=e)
     structured = cls != "PointCloud"
     ctx.see("transform_kinds", kind)
     ctx.see("shape_classes", cls)
